@@ -496,9 +496,9 @@ def run(ctx):
                 k = (len(l) - len(l.lstrip(' '))) // 4
                 if l.strip():
                     deepest = max(deepest, k)
-                # line i is complete here: it closes what it opens, does not end in ： ？ ， 、 【 {, and is not a 输入 line
+                # line i is complete here: it closes what it opens and does not end in ： ？ ， 、 【 { (输入 lines included since repair 07aabbd)
                 b2 = bal + l.count('“') - l.count('”') + l.count('/*') - l.count('*/')
-                if b2 == 0 and l.strip() and not l.rstrip().endswith(('：', '？', '，', '、', '【', '{')) and not l.lstrip().startswith(('输入', '注', '/*', '//')) \
+                if b2 == 0 and l.strip() and not l.rstrip().endswith(('：', '？', '，', '、', '【', '{')) and not l.lstrip().startswith(('注', '/*', '//')) \
                         and l.count('（') == l.count('）') and l.count('【') == l.count('】'):
                     ok.append(i)
                     deep_at[i] = (k, deepest)
@@ -528,6 +528,40 @@ def run(ctx):
         syn_expect.append('main:%d caret=0' % (i + 1 + len(between) + 1))
         n_over += 1
         ctx.count('syntax-overindent-' + ('tab' if tab else 'spaces'))
+    # ---- … and an exec block that ends while still in its 输入 section (repair 07aabbd): a line indented deeper / less than the 输入 line right
+    # after it → the error is ON that line (caret 0); the 输入 line last in the text → at the end of the text (its line, caret = its width)
+    n_after = 0
+    inp_srcs = list(srcs[: ctx.n(400, 8000)]) + ['如何算？\n    输入N\n    输出 N\n（显示：（算：1））', '如何外？\n    输入N\n    如何内？\n        输入M、K\n        输出 M\n    输出 N\n（显示：1）',
+                                                 '定义盒：\n    其甲设为1\n    如何取？\n        输入N\n        输出 N\n（显示：2）'] * ctx.n(4, 40)
+    for src in inp_srcs:
+        lines_ = src.split('\n')
+        ok, bal = [], 0
+        for i, l in enumerate(lines_):
+            b2 = bal + l.count('“') - l.count('”') + l.count('/*') - l.count('*/')
+            if bal == 0 and b2 == 0 and l.lstrip(' ').startswith('输入') and not l.rstrip().endswith(('、', '，', '输入')) \
+                    and (len(l) - len(l.lstrip(' '))) % 4 == 0 and '注' not in l and '//' not in l:
+                ok.append(i)
+            bal = b2
+        if not ok:
+            continue
+        i = rng.choice(ok)
+        k = (len(lines_[i]) - len(lines_[i].lstrip(' '))) // 4
+        kind = rng.choice(['over', 'dedent', 'last'] if k > 0 else ['over', 'last'])
+        if kind == 'last':
+            tail = rng.choice(['', '', '\n', '\n\n', '\n注：说明', '\n' + '    ' * k + '// x', '\n/* 多\n行 */', '\n' + '    ' * k])
+            text = '\n'.join(lines_[:i + 1]) + tail
+            last = text.split('\n')[-1].lstrip(' ')
+            exp = 'main:%d caret=%d' % (text.count('\n') + 1, sum(2 if ord(c) > 0x2E80 else 1 for c in last))
+        else:
+            steps = k + rng.choice([1, 1, 2]) if kind == 'over' else rng.randrange(k)
+            between = rng.choice([[], [], [''], ['注：说明'], ['/* 多\n行 */']])
+            body = rng.choice(['（显示：“余”）', '输出9', '令余设为1', '余', '）', '否则：', '拦截异常：'])
+            text = '\n'.join(lines_[:i + 1] + between + ['    ' * steps + body] + lines_[i + 1:])
+            exp = 'main:%d caret=0' % ('\n'.join(lines_[:i + 1] + between).count('\n') + 2)
+        syn_lines.append('run ' + cps(text))
+        syn_expect.append(exp)
+        n_after += 1
+        ctx.count('syntax-after-input-line-' + kind)
     syn_go = ctx.run_go(syn_lines)
     for line, g_out, exp in zip(syn_lines, syn_go, syn_expect):
         ctx.evaluations += 1
@@ -537,7 +571,7 @@ def run(ctx):
         if got != exp:
             ctx.violation('syntax:ground-truth', line, g_out, 'expected syntax error at ' + exp)
         ctx.nontriv(line)
-    ctx.streams.append({'stream': 'syntax-planted', 'cases': len(syn_lines), 'overindented': n_over})
+    ctx.streams.append({'stream': 'syntax-planted', 'cases': len(syn_lines), 'overindented': n_over, 'after_input_line': n_after})
     # ---- the same broken texts as an IMPORTED module (real files): the error names that module, the line and the caret are the ones
     # of the module's own text; nothing of the importing file has run, the modules imported before it have
     def _files(files, main):
